@@ -184,6 +184,16 @@ def tagged_of(out, tag="t"):
     return m.group(2).decode()
 
 
+class _Items(list):
+    def __init__(self, driver):
+        super().__init__()
+        self.driver = driver
+
+    def append(self, it):
+        super().append(it)
+        self.driver.pos.append(len(self.driver.log))
+
+
 class Driver:
     """one World plus the bookkeeping of what was sent and seen"""
 
@@ -192,7 +202,8 @@ class Driver:
         self.w.run(self.w.server.find_all_folders())
         self.w.session("A")
         self.w.session("B")
-        self.items = []      # what goes to Coq
+        self.items = _Items(self)   # what goes to Coq
+        self.pos = []        # for every item: how many commands had been sent when it was observed
         self.log = []        # human readable: command text -> reply
         self.next_cid = 1
         self.error = None
@@ -449,7 +460,8 @@ def run_history(ctx, seed, nops, nprobes, witness=None):
     d = Driver(seed)
     used = []
     meta = {"ops": {}, "refused": 0, "placeholders": 0, "renamed_subtrees": 0, "probes": 0, "skipped": 0}
-    res = {"seed": seed, "items": d.items, "log": d.log, "error": None, "meta": meta, "violation": None}
+    res = {"seed": seed, "items": d.items, "pos": d.pos, "log": d.log, "error": None, "meta": meta,
+           "violation": None}
     try:
         t = d.observe_state()
         script = list(witness) if witness else None
@@ -653,7 +665,8 @@ def history_level(ctx):
                        "dirs": "the directories on disk", "msgs": "the messages of a mailbox"}[it[0]],
                       {"seed": h["seed"], "first_difference_at_item": k, "all_differences": idx[:20],
                        "item_kind": it[0], "implementation": repr(it[1:])[:3000], "model": model_at(ctx, h, k),
-                       "commands_and_replies": h["log"][-40:] if len(h["log"]) < 60 else h["log"][:60]})
+                       "commands_and_replies": [[c, r if j >= h["pos"][k] - 15 else "..."]
+                                                for j, (c, r) in enumerate(h["log"][:h["pos"][k]])]})
     ctx.coverage["traces_validated_against_impl"] = len(hs) - len(bad)
     ctx.extra["histories"] = len(hs)
     ctx.extra["history_input_distribution"] = tot
